@@ -53,6 +53,7 @@ class InvalidPathError(GWFError):
 
 
 def _check_path(path):
+    path = fspath(path)
     if not path:
         raise InvalidPathError("Path is empty")
 
